@@ -28,7 +28,11 @@ RULE = ("names: 1-3 links over child (Instance) / kids (List) / byname (Dict) wi
         "sides), removal and re-registration; after EVERY operation every allocated object (also detached ones) is "
         "probed on both scalars. List ops: reassign, append, insert, del, item and slice assignment, clear; dict ops: "
         "reassign, __setitem__, update and |= mixing existing and new keys (ONE event with changed+added), setdefault, "
-        "del, pop, popitem, clear. 30% of the histories ('E') use a node class with value-based __eq__ (unhashable) "
+        "del, pop, popitem, clear; carry-over changes in which objects are on BOTH sides of one container change "
+        "(the graph stays a tree): reverse(), sort(), kids[:] = rotation / tail + fresh, o.kids = o.kids[d:] + fresh, "
+        "o.kids = list(reversed(o.kids)), o.byname = dict(reversed(items[d:])). 7% of the histories are "
+        "handler(new) / handler(name, new) registrations of 'child.value' (the documented mapped case; oracle only) "
+        "whose link is reassigned to fresh objects with an equal / a different final value. 30% of the histories ('E') use a node class with value-based __eq__ (unhashable) "
         "and replace items / dict values by equal CLONES, so that any use of == instead of identity shows. "
         "Exhaustive: all histories of length <= 2 (quick) / <= 3 (thorough) over an 8-35 letter "
         "alphabet (every op kind on the two upper objects, probes, rm, rg) on a 3-object tree for 13 fixed names "
@@ -43,10 +47,12 @@ TRUSTED = ["the reachability specification `reach`/`specCalls` (Model/Legacy.lea
            "calls of a 0-argument legacy handler carry no object/name; they are attributed to the object and trait "
            "the operation changed",
            "scalar contents are not modelled: a probe is `o.value += 1` (always a real change)"]
-ASSUMPTIONS = ["tree-shaped graphs: every inserted object is fresh; objects removed from the tree stay in the probe "
-               "pool but are never re-inserted",
+ASSUMPTIONS = ["tree-shaped graphs: an object added by a container change is fresh or was in that same container "
+               "before the change (reorderings, carry-over reassignments); objects removed from the tree stay in the "
+               "probe pool but are never re-inserted",
                "common fragment only: no wildcards/metadata/?/* names, no ListenerGroup, no 1-/2-argument (DST) "
-               "handlers (1/2 arguments only with ':' links, oracle only), dispatch='same', priority=False",
+               "handlers in the model (1/2 arguments: oracle only, with ':' links or on the two-level 'child.value' shape; "
+               "None is not assigned to the link there: handle_dst raises TraitError), dispatch='same', priority=False",
                "ListenerParser itself is not modelled; names are produced in both syntaxes from one AST and the "
                "correspondence covers the parse"]
 EXHAUSTIVE = {"quick": False, "thorough": True}
@@ -73,6 +79,14 @@ def corpus():
         "D 4 k: v|rg;sk 0 2;rm;pv 1;ap 0;rg;ap 0;rm",
         "K 4 b. v|rg;ds 0 1;ds 0 2;rm;ds 0 3;rg;ds 0 1;rm",
         "D 0 k. c: v|rg;ap 0;sc 1 1;rm;rg;sk 0 1;sc 4 1;rm",
+        # carry-over: objects on both sides of ONE container change (seeded change C16-m6)
+        "4 k: v|sk 0 3;rg;rv 0;so 0;ro 0;kp 0 1 1;kc 0 1 1;kr 0;pv 2",
+        "4 c. k. c: v|sc 0 1;sk 1 2;sc 2 1;sc 3 1;rg;rv 1;kc 1 1 1;kr 1;rm",
+        "0 b. v|sb 0 1 2 3;rg;bd 0 0;bd 0 1;bd 0 5",
+        # handler(new) / handler(name, new) on 'child.value': the link is reassigned to a fresh object
+        # with an equal / a different final value (seeded change C16-m7)
+        "#1 c. v|sc 0 1;rg;sc 0 2;sc 0 1;sc 0 2;pv 4;rm;sc 0 2",
+        "#D 2 c. x|rg;sc 0 1;sc 0 2;px 2;sc 0 2",
     ]
 
 
